@@ -36,7 +36,7 @@ ASSUMPTIONS = [
     "bit 29 (frame format) of the COB-ID entry is not modelled: canopen strips it on read and never writes it",
     "COB-IDs that collide with the node's own SDO/heartbeat/EMCY/LSS ids are not generated",
 ]
-BUDGET = {"quick": 55, "thorough": 420}
+BUDGET = {"quick": 150, "thorough": 420}
 NODE = 4
 
 INVALID = 1 << 31
@@ -228,14 +228,20 @@ def com_map_index(cfg):
     return 0x1800 + n, 0x1A00 + n
 
 
+def _w(o):
+    """Mapped bit length of an application object: its type's width, or (strings / DOMAIN, which
+    have no width of their own) the length it is mapped with."""
+    return o.get("maplen") or rc.width(o["dt"])
+
+
 def app_entries(cfg):
     out = {}
     for o in cfg["app"]:
         if o["kind"] == "var":
-            out[(o["index"], 0)] = rc.width(o["dt"])
+            out[(o["index"], 0)] = _w(o)
         else:
             for m in o["members"]:
-                out[(o["index"], m["sub"])] = rc.width(m["dt"])
+                out[(o["index"], m["sub"])] = _w(m)
     return out
 
 
@@ -433,8 +439,15 @@ def _apply_attrs(pmap, cfg, case=None):
     pmap.clear()
     names = _names(case) if case else {}
     forms = (case or {}).get("addforms") or []
+    explicit = set()
+    for o in (case or {}).get("app", []):
+        for m in ([o] if o["kind"] == "var" else o["members"]):
+            if m.get("maplen"):
+                explicit.add((o["index"], m.get("sub", 0)))
     for k, (index, sub, ln) in enumerate(cfg["map"]):
         form = forms[k % len(forms)] if forms else "num"
+        if (index, sub) in explicit:
+            form = "num_len"        # an object without a width of its own is mapped with an explicit length
         oname, mname = names.get((index, sub), (None, None))
         if form == "num_len":
             pmap.add_variable(index, sub, ln)
@@ -472,7 +485,12 @@ def case_strategy(draw):
     idxs = sorted(draw(st.sets(st.integers(0x2000, 0x9FFF), min_size=napp, max_size=napp)))
     app = []
     for k, index in enumerate(idxs):
-        if draw(st.booleans()):
+        if draw(st.integers(0, 5)) == 0:
+            # octet / visible strings and DOMAIN are mapped with the length given in the mapping entry
+            app.append({"kind": "var", "index": index, "name": f"app{k}",
+                        "dt": draw(st.sampled_from([rc.OCTET_STRING, rc.VISIBLE_STRING, rc.DOMAIN])),
+                        "maplen": draw(st.sampled_from([8, 16, 24, 32, 40, 64]))})
+        elif draw(st.booleans()):
             app.append({"kind": "var", "index": index, "name": f"app{k}", "dt": draw(st.sampled_from(PDO_DTS))})
         else:
             subs = sorted(draw(st.sets(st.integers(1, 254), min_size=1, max_size=3)))
@@ -481,10 +499,10 @@ def case_strategy(draw):
     cands = []
     for o in app:
         if o["kind"] == "var":
-            cands.append((o["index"], 0, rc.width(o["dt"])))
+            cands.append((o["index"], 0, _w(o)))
         else:
             for m in o["members"]:
-                cands.append((o["index"], m["sub"], rc.width(m["dt"])))
+                cands.append((o["index"], m["sub"], _w(m)))
 
     def draw_map():
         out, total = [], 0
